@@ -68,7 +68,8 @@ Record TOk (T : table) : Prop := mkTOk {
   o_pf_setiter_d : t_pf_setiter_d T = true; o_pf_setiter_u : t_pf_setiter_u T = true;
   o_pf_dmg_inval_u : t_pf_dmg_inval_u T = true; o_pf_el_inval_d : t_pf_el_inval_d T = true;
   o_csr_key_groups : t_csr_key_groups T = true; o_csr_key_ndof : t_csr_key_ndof T = true;
-  o_mass_key_group : t_mass_key_group T = true; o_model_cache_refresh : t_model_cache_refresh T = true
+  o_mass_key_group : t_mass_key_group T = true; o_model_cache_refresh : t_model_cache_refresh T = true;
+  o_param_set_unconditional : t_param_set_unconditional T = true
 }.
 
 Lemma not_never_spec m : not_never m = true -> m <> NNever.
@@ -495,6 +496,8 @@ Theorem step_inv T w o : TOk T -> WInv w -> WInv (step T w o).
 Proof.
   intros O W. pose proof W as [HM HS]. destruct o; simpl.
   - (* OParam *) split; simpl; auto. eapply Forall_map'; eauto. intros x Hx. apply react_model_inv with (p := par w); auto.
+  - (* OParamArr *) rewrite (o_param_set_unconditional _ O), andb_false_r. split; simpl; auto.
+    eapply Forall_map'; eauto. intros x Hx. apply react_model_inv with (p := par w); auto.
   - (* OMeshMove *) split; simpl.
     + eapply Forall_upd_nth; eauto. intros x _. left. simpl. rewrite (o_mesh_clear _ O). reflexivity.
     + destruct (Nat.ltb m (length (meshes w))) eqn:L.
